@@ -88,7 +88,10 @@ Fixpoint names_notin (env : enum_env) (ns : list Z) : outcome (list str) :=
   end.
 
 (* ---- buildFromStringProto ------------------------------------------------- *)
-Inductive sfmt := SfUuid | SfId62 | SfNatural.
+Inductive sfmt := SfUuid | SfId62 | SfNatural | SfDate | SfNumber.
+
+Definition fmt_date : str := [100;97;116;101].              (* "date" *)
+Definition fmt_number : str := [110;117;109;98;101;114].    (* "number" *)
 
 Definition date_pattern : str := [94;92;100;123;52;125;45;92;100;123;50;125;45;92;100;123;50;125;36].   (* ^\d{4}-\d{2}-\d{2}$ *)
 Definition number_pattern : str := [94;92;100;40;46;63;92;100;41;63;36].                                  (* ^\d(.?\d)?$ *)
@@ -99,13 +102,18 @@ Definition read_string (vt : option tyc) (lst : option (larm * lpay)) (j5 : opti
   obind (match vt with
          | None => Ok (None, None, false)
          | Some (CStr mn mx pat uuid) =>
-             if match pat with Some p => str_eqb p date_pattern || str_eqb p number_pattern | None => false end
-             then Err "well-known string format outside the model"
-             else
-               let is62 := match pat with Some p => str_eqb p Id62Gen.pattern_string | None => false end in
-               Ok (Some (SR (if is62 then None else pat) mn mx),
-                   (if uuid then Some SfUuid else if is62 then Some SfId62 else None),
-                   uuid)
+             (* wellKnownStringPatterns: the pattern becomes a format and is dropped from the rules;
+                the uuid well-known rule then overwrites the format *)
+             let wk := match pat with
+                       | Some p => if str_eqb p date_pattern then Some SfDate
+                                   else if str_eqb p number_pattern then Some SfNumber
+                                   else if str_eqb p Id62Gen.pattern_string then Some SfId62
+                                   else None
+                       | None => None
+                       end in
+             Ok (Some (SR (if is_some wk then None else pat) mn mx),
+                 (if uuid then Some SfUuid else wk),
+                 uuid)
          | Some _ => Err "constraint for string is not a string constraint"
          end)
     (fun v =>
@@ -141,13 +149,17 @@ Definition read_string (vt : option tyc) (lst : option (larm * lpay)) (j5 : opti
                   || match fmt with Some SfId62 => true | _ => false end
                   || match j5 with Some (XKey _) => true | _ => false end in
                 if negb looks_like_key
-                then Ok (TStr None rules open_text)
+                then Ok (TStr (match fmt with
+                               | Some SfDate => Some fmt_date
+                               | Some SfNumber => Some fmt_number
+                               | _ => None          (* uuid / id62 / natural_key look like keys *)
+                               end) rules open_text)
                 else Ok (TKey (match fmt with
                                | Some SfUuid => Some KUuid
                                | Some SfId62 => Some KId62
                                | Some SfNatural => Some KInformal
                                (* otherwise what the key annotation says *)
-                               | None => match j5 with Some (XKey f) => f | _ => None end
+                               | Some SfDate | Some SfNumber | None => match j5 with Some (XKey f) => f | _ => None end
                                end)
                               (match key with
                                | Some k =>
@@ -277,8 +289,10 @@ Fixpoint read_object (env : enum_env) (os : list fout) : outcome (list rprop) :=
 (* ---- the schema a declaration denotes (what reading back must yield) ------- *)
 (* representation-only differences are normalised away:
    exclusive flags that are false or have no bound; absent enum / bytes rules
-   (read back as empty rules); enum option names in short form; a primary key is
-   required; primaryKey = false is the same as no entity type *)
+   (read back as empty rules); absent array / map rules when the items carry a
+   constraint (read back as empty rules); enum option names in short form; a
+   primary key is required; primaryKey = false is the same as no entity type.
+   Descriptions are NOT normalised. *)
 Definition norm_int (r : int_rules) : int_rules :=
   IR (ir_min r) (ir_max r)
      (if is_some (ir_min r) && is_true (ir_xmin r) then Some true else None)
@@ -304,42 +318,44 @@ Definition norm_fty (env : enum_env) (t : fty) : fty :=
   | t => t
   end.
 
-Definition is_primary_ty (t : fty) : bool :=
+(* does the declared item type carry a validation constraint of its own?
+   (from the declaration alone: rules present, an enum, a formatted key) *)
+Definition items_constrained (t : fty) : bool :=
   match t with
-  | TKey _ (Some e) _ => match ek_type e with Some (EPrimary true) => true | _ => false end
+  | TInt _ (Some _) _ | TStr _ (Some _) _ | TBytes (Some _) | TBool (Some _) _ => true
+  | TEnum _ _ => true
+  | TKey (Some _) _ _ => true
   | _ => false
   end.
 
+(* computed from the declaration alone (no writer function is called) *)
 Definition norm_prop (env : enum_env) (idx : N) (d : prop) : rprop :=
   let t := match p_ty d with PSingle t | PArray _ _ t | PMap _ t => t end in
   RP (P (p_name d) (p_req d || match p_ty d with PMap _ _ => false | _ => is_primary_ty t end) (p_opt d)
         (match p_ty d with
          | PSingle t => PSingle (norm_fty env t)
          | PArray r sf t =>
-             (* (empty) array rules are reported whenever the field carries a
-                repeated constraint, i.e. also when only the items have one *)
+             (* absent array rules equal empty ones when the items are constrained *)
              PArray (match r with
                      | Some r => Some r
-                     | None => match write_field env t with
-                               | Ok w => if is_some (fw_val w) then Some (AR None None None) else None
-                               | _ => None
-                               end
+                     | None => if items_constrained t then Some (AR None None None) else None
                      end) sf (norm_fty env t)
          | PMap r t =>
              PMap (match r with
                    | Some r => Some r
-                   | None => match write_field env t with
-                             | Ok w => if is_some (fw_val w) then Some (MR None None) else None
-                             | _ => None
-                             end
+                   | None => if items_constrained t then Some (MR None None) else None
                    end) (norm_fty env t)
          end)
-        (clean_desc (p_desc d)))
+        (p_desc d))               (* the description as declared *)
      [(idx + 1)%N].
 
 (* ---- the fragment of declarations every component of which the annotations carry ---- *)
 (* (proved exact in proofs/RulesReadProofs.v: a compiled property reads back as
    declared iff rt_ok holds) *)
+(* the description survives commentDescription unchanged: no line starts with
+   '#', none has leading / trailing blanks, none is empty *)
+Definition desc_plain (d : str) : bool := str_eqb (clean_desc d) d.
+
 Definition pat_plain (p : option str) : bool :=
   match p with
   | Some p => negb (str_eqb p date_pattern) && negb (str_eqb p number_pattern)
@@ -372,7 +388,7 @@ Definition rt_fty (m : mode) (t : fty) : bool :=
   (* custom pattern / informal live in (j5.ext.v1.field).key, which array items and map values do not have *)
   | MSingle, TKey (Some KInformal) _ _ => true
   (* a custom key with list rules is written as a unique_string foreign key, which reads back informal *)
-  | MSingle, TKey (Some (KCustom p)) _ l => pat_plain (Some p) && negb (is_some l)
+  | MSingle, TKey (Some (KCustom p)) _ l => negb (str_eqb p Id62Gen.pattern_string) && negb (is_some l)
   | _, TKey (Some _) _ _ => false
   | MSingle, _ => true
   (* inside an array or a map there is no (j5.ext.v1.field) of the item *)
@@ -383,8 +399,10 @@ Definition rt_fty (m : mode) (t : fty) : bool :=
   end.
 
 Definition rt_ok (d : prop) : bool :=
+  desc_plain (p_desc d) &&
   match p_ty d with
   | PSingle t => rt_fty MSingle t
+  (* explicitlyOptional is read for singular properties only *)
   | PArray _ _ t => rt_fty MArray t && negb (p_opt d)
   | PMap _ t => rt_fty MMap t && negb (p_opt d)
   end.
